@@ -55,6 +55,26 @@ def analyse_value(v, conds, asserts):
         leafs = [t for t in (a, b) if arith.const_num(t) is None]
         if consts != [SCALE] or len(leafs) != 1 or not rate_leaf(leafs[0]):
             return False, 'value is %s (must be rate x 1000)' % fmt(x)[:100], 'R2'
+        # the product formed in a wider type (`u64::from(rate) * 1000`): it cannot wrap there; narrowing it back must be
+        # checked -- this path must know the product fits u32 (the Ok edge of `u32::try_from`, an explicit comparison)
+        cty = [t[2] for t in (a, b) if psi.is_int_const(t)]
+        if cty and cty[0] in ('u64', 'i64', 'u128', 'i128', 'usize'):
+            fits = False
+            for term, op, val, _ in conds:
+                n = common.cmp_norm(term)
+                t_ = common.cond_truth(op, val)
+                if n is None or t_ is None:
+                    continue
+                cop, l_, r_ = n
+                if l_ == x and arith.const_num(r_) is not None:
+                    c_ = arith.const_num(r_)
+                    if not t_:
+                        cop = common.NEG[cop]
+                    if (cop == 'le' and c_ <= U32[1]) or (cop == 'lt' and c_ <= U32[1] + 1):
+                        fits = True
+            if fits:
+                return True, 'rate x 1000 computed in %s, handed over only when it fits u32' % cty[0], 'R1'
+            return False, 'rate x 1000 computed in %s but narrowed without a check on this path' % cty[0], 'R1'
         # plain multiply: representable only if guarded. range of the leaf from the path's atoms
         lo, hi = 0, U32[1]
         for c in conds:
@@ -126,7 +146,8 @@ def run(ctx, chk):
                    '--max-drift-rate %s: thread_manager::run receives %s' % ('given' if opt == 'Some' else 'omitted', desc))
         if not runs and p.kind == 'return':
             # a refusal path: must be an Err return
-            if any('checked_mul' in fmt(c[0]) for c in p.conds):
+            # (a path that ends start-up after looking at the rate itself: a failed checked_mul, try_from, range test ..)
+            if any(any(rate_leaf(y) for y in psi.walk(c[0])) for c in p.conds):
                 is_err = p.value[0] == 'agg' and p.value[2] == 'Err'
                 chk.ob('C19.R3', 'main:refusal-is-error-exit', is_err, p.where[2],
                        'unrepresentable rate: main returns %s' % fmt(p.value)[:60])
